@@ -430,13 +430,17 @@ structure Frame where
   /-- ghost: the contents this operation left behind when it released its exclusive lock. -/
   committed : Option Bytes
 
-/-- Source shapes that the programs below hard-code (each regenerated from the source by factgen;
-`facts_program_shape` in Props/C06 re-checks them on every run). -/
-def programShape : Bool :=
+/-- Source shapes of the locking code that the programs below hard-code (each regenerated from the source by
+factgen; `facts_program_shape` in Props/C06 and Props/C07 re-checks them on every run). -/
+def programShapeLock : Bool :=
   Gen.Lockedfile.truncFailUnlocksCloses && Gen.Lockedfile.lockFailCloses && Gen.Lockedfile.unlockBeforeClose &&
   Gen.Lockedfile.closeErrCombine && Gen.Lockedfile.rlockIsSH && Gen.Lockedfile.lockIsEX && Gen.Lockedfile.unlockIsUN &&
-  Gen.Lockedfile.openFileCallsOpenFile && Gen.Lockedfile.closeCallsCloseFile && Gen.Lockedfile.readShape &&
-  Gen.Lockedfile.writeShape && Gen.Lockedfile.mutexLockShape && Gen.Lockedfile.tPrologue && Gen.Lockedfile.tBody
+  Gen.Lockedfile.openFileCallsOpenFile && Gen.Lockedfile.closeCallsCloseFile && Gen.Lockedfile.mutexLockShape
+
+/-- Source shapes of Read / Write / Transform that the programs below hard-code (Props/C07 only). -/
+def programShapeData : Bool :=
+  Gen.Lockedfile.readShape && Gen.Lockedfile.writeShape && Gen.Lockedfile.tPrologue && Gen.Lockedfile.tBody &&
+  Gen.Lockedfile.tTailFirst && Gen.Lockedfile.tRollback
 
 /-- Where Transform goes when a body step failed: the deferred roll-back, if the source has it. -/
 def rollbackPc (fd : Fd) (old : Bytes) : Pc :=
